@@ -620,7 +620,7 @@ def rule_gate(ctx):
 
 
 # a client write addressed to one property reaches that property's switches (and no other vector's)
-IMPORTS = [('C06', 'C06.KEY')]
+IMPORTS = [('C06', 'C06.KEY'), ('C07', 'C07.META')]  # C07.META: what is published shows every switch's own current state (no stale part)
 
 RULES = [
     ("C09.STEP", rule_step, "induction step: every single write leaves the vector in the state the rule table prescribes; invalid values raise; publication after stores"),
